@@ -118,7 +118,7 @@ def run_all(ctx, binp, corr_broken, scale=1, search=False):
         ("TestVerifUniqCorr", "uniq", ctx.budget(6000, 40000) * scale, {}, None),
     ]
     for test, stream, n, env, tag in plans:
-        ok, ops, impl, out = e1util.run_corr(ctx, binp, test, stream, n, env, timeout=1500)
+        ok, ops, impl, out = e1util.run_corr(ctx, binp, test, stream, n, env, timeout=ctx.budget(400, 1500))
         ctx.log("%s: %d cases" % (test, len(ops)))
         if "no tests to run" in out:
             continue  # that harness file is not part of the binary (fallback build)
